@@ -694,6 +694,7 @@ func cmdCheck(args []string) int {
 				"signed machine arithmetic (+,-,*) is treated as mathematical (no overflow); unsigned arithmetic and all conversions wrap exactly",
 				"bodies of functions outside the module enter only through the models / assumed contracts listed in trusted_base",
 				"termination is not proved",
+				"calls through function values are resolved by value flow (function, closure, method value, result of a module function, stores into the struct field the value is read from; values handed out by library functions are library code), otherwise by signature; function-typed struct fields are written only by ordinary stores (no reflection / unsafe)",
 			}, tb...),
 		}
 		if len(bounded) > 0 {
